@@ -142,6 +142,9 @@ func (p *Prog) inlineSet(level int, only map[string]bool) error {
 		if n == 1 {
 			return true
 		}
+		if (only != nil || p.listOnly) && level >= 2 {
+			return instrCount(g) <= 8*smallHelper // explicitly selected helper: size is no reason not to look inside
+		}
 		return level >= 2 && instrCount(g) <= smallHelper
 	}
 	state := map[*ssa.Function]int{} // 1 = in progress, 2 = done
@@ -318,6 +321,16 @@ func (p *Prog) inlineSet(level int, only map[string]bool) error {
 			}
 		}
 		keep2 = append(keep2, fn)
+	}
+	p.dropped = map[*ssa.Function]bool{}
+	kept := map[*ssa.Function]bool{}
+	for _, fn := range keep2 {
+		kept[fn] = true
+	}
+	for _, fn := range p.Funcs {
+		if !kept[fn] {
+			p.dropped[fn] = true
+		}
 	}
 	p.Funcs = keep2
 	sort.Strings(p.Inlined)
